@@ -19,6 +19,7 @@ enum Focus {
 	C03,
 	C07,
 	C11,
+	C10,
 }
 
 fn focus_of(plan: &Plan) -> Focus {
@@ -26,6 +27,7 @@ fn focus_of(plan: &Plan) -> Focus {
 		"C02" => Focus::C02,
 		"C03" => Focus::C03,
 		"C11" => Focus::C11,
+		"C10" => Focus::C10,
 		_ => Focus::C07,
 	}
 }
@@ -37,6 +39,7 @@ fn gen_workload(rng: &mut Rng, focus: Focus, nkeys: u16, tags: &mut TagGen, comm
 		Focus::C03 => (8, 20),
 		Focus::C07 => (5, 20),
 		Focus::C11 => (3, 30),
+		Focus::C10 => (4, 25),
 	};
 	for _ in 0..commits {
 		write_txn(rng, 0, nkeys, tags, max_writes, sync_pct, budget, &mut steps);
@@ -53,10 +56,38 @@ fn gen_workload(rng: &mut Rng, focus: Focus, nkeys: u16, tags: &mut TagGen, comm
 	steps
 }
 
+pub fn gen_c10_crash(case_seed: u64, case: u64, tier: Tier) -> Plan {
+	let mut p = gen(case_seed, case, tier, "C10", Focus::C10);
+	p.params.insert("mode".into(), 1);
+	p
+}
+
 pub fn gen_c11_crash(case_seed: u64, case: u64, tier: Tier) -> Plan {
 	let mut p = gen(case_seed, case, tier, "C11", Focus::C11);
 	p.params.insert("mode".into(), 1);
 	p
+}
+
+/// C10's domain: one write per key per transaction (no two versions tie on the commit
+/// timestamp).
+fn one_write_per_key(steps: &mut Vec<Step>) {
+	let mut seen: BTreeMap<u8, Vec<u16>> = BTreeMap::new();
+	steps.retain(|s| match s {
+		Step::Begin { a, .. } | Step::Commit { a, .. } | Step::Rollback { a } | Step::DropTxn { a } => {
+			seen.remove(a);
+			true
+		}
+		Step::Set { a, k, .. } | Step::Delete { a, k, .. } | Step::SoftDelete { a, k, .. } | Step::Replace { a, k, .. } => {
+			let v = seen.entry(*a).or_default();
+			if v.contains(k) {
+				false
+			} else {
+				v.push(*k);
+				true
+			}
+		}
+		_ => true,
+	});
 }
 
 fn gen(case_seed: u64, _case: u64, tier: Tier, id: &str, focus: Focus) -> Plan {
@@ -67,6 +98,13 @@ fn gen(case_seed: u64, _case: u64, tier: Tier, id: &str, focus: Focus) -> Plan {
 	}
 	if focus == Focus::C11 {
 		opts.vlog_max_file = *rng.pick(&[256u64, 512, 1024]);
+	}
+	if focus == Focus::C10 {
+		// version history across crashes: the B+tree version index is updated in place
+		// during a flush, before the manifest switches
+		opts.versioning = true;
+		opts.versioned_index = rng.chance(2, 3);
+		opts.retention_ns = 0;
 	}
 	// tiny memtables so that rotation happens every few commits
 	if rng.chance(2, 3) {
@@ -81,7 +119,10 @@ fn gen(case_seed: u64, _case: u64, tier: Tier, id: &str, focus: Focus) -> Plan {
 		Tier::Thorough => rng.range(4, 36),
 	};
 	let budget = txn_budget(opts.memtable);
-	let steps = gen_workload(&mut rng, focus, nkeys, &mut tags, commits, gated, true, budget);
+	let mut steps = gen_workload(&mut rng, focus, nkeys, &mut tags, commits, gated, true, budget);
+	if focus == Focus::C10 {
+		one_write_per_key(&mut steps);
+	}
 	let mut params = BTreeMap::new();
 	let gens = if rng.chance(1, 2) { 2 } else { 1 };
 	params.insert("gens".to_string(), gens);
@@ -96,8 +137,12 @@ fn gen(case_seed: u64, _case: u64, tier: Tier, id: &str, focus: Focus) -> Plan {
 	let mut twin = None;
 	if gens == 2 {
 		let c2 = rng.range(2, 10);
-		let mut s2 = vec![Step::RecoverSettle];
+		// the second generation runs later than the first (commit timestamps keep growing)
+		let mut s2 = vec![Step::RecoverSettle, Step::Advance { ns: 10_000_000 }];
 		s2.extend(gen_workload(&mut rng, focus, nkeys, &mut tags, c2, false, false, budget));
+		if focus == Focus::C10 {
+			one_write_per_key(&mut s2);
+		}
 		twin = Some(Box::new(Plan {
 			check: id.to_string(),
 			case_seed: case_seed ^ 0x9e37,
@@ -206,6 +251,7 @@ fn owns(focus: Focus, class: &str, lo: u64) -> bool {
 		Focus::C02 => matches!(class, "acked_lost" | "acked_write_missing" | "panic") || (class == "open_failed" && lo > 0),
 		Focus::C03 => matches!(class, "not_prefix" | "future_data" | "scan_disagree" | "get_scan_disagree" | "panic"),
 		Focus::C11 => matches!(class, "acked_lost" | "acked_write_missing" | "not_prefix" | "read_error" | "scan_disagree" | "get_scan_disagree" | "panic") || (class == "open_failed" && lo > 0),
+		Focus::C10 => matches!(class, "history_mismatch" | "get_at_mismatch" | "read_error" | "panic") || (class == "open_failed" && lo > 0),
 		Focus::C07 => matches!(
 			class,
 			"open_failed" | "reopen_differs" | "probe_shadowed" | "probe_commit_failed" | "close_failed" | "background_error" | "read_error" | "panic" | "recovery_not_idempotent"
@@ -246,7 +292,13 @@ impl Sweep<'_> {
 	fn run(&mut self, plan: &Plan, base: &Image, ops: &[Op], model: &Model, points: &[usize], tear: &Tear, gen: u32) -> Option<Violation> {
 		let mut first_known: Option<Violation> = None;
 		for &n in points {
+			let mut process_ok = false;
 			for (mi, cm) in [CrashModel::Process, CrashModel::PowerLoss, CrashModel::PowerLoss].iter().enumerate() {
+				// C10 quantifies over process-crash images only (the version index is
+				// updated in place and makes no power-loss promise)
+				if self.focus == Focus::C10 && *cm == CrashModel::PowerLoss {
+					continue;
+				}
 				let t = match mi {
 					1 => Tear::default(),
 					_ => tear.clone(),
@@ -264,7 +316,7 @@ impl Sweep<'_> {
 				// did a recovery flush a table before the first commit of this session?
 				let first_commit = ops.iter().position(|o| matches!(o, Op::Marker { text } if text.starts_with("invoke commit"))).unwrap_or(ops.len());
 				let recovery_flushed = gen > 1 && ops[..n.min(first_commit)].iter().any(|o| matches!(o, Op::Create { path, .. } if path.ends_with(".sst")));
-				let r = recover_check(&plan.opts, &dir, model, lo, hi, &plan.keys, self.deep, plan.case_seed ^ n as u64, recovery_flushed);
+				let r = recover_check(&plan.opts, &dir, model, lo, hi, &plan.keys, self.deep, plan.case_seed ^ n as u64, recovery_flushed, self.focus == Focus::C10);
 				let _ = std::fs::remove_dir_all(&dir);
 				self.j.evaluations += 1;
 				self.j.count(if *cm == CrashModel::Process { "images.process_crash" } else { "images.power_loss" }, 1);
@@ -274,7 +326,23 @@ impl Sweep<'_> {
 				if hi > lo {
 					self.j.count("images.with_unacked_tail", 1);
 				}
+				if *cm == CrashModel::Process {
+					process_ok = r.violation.is_none();
+					if std::env::var("SKV_DEBUG").is_ok() {
+						if let Some(v) = &r.violation {
+							eprintln!("  process image at {} fails: {} {}", n, v.class, v.detail);
+						}
+					}
+				}
 				if let Some(mut v) = r.violation {
+					// F9: the B+tree version index is updated in place, page by page, without a
+					// journal: a power loss that tears or drops one of its page writes leaves an
+					// index the store cannot read. Attributed only when the process-crash image of
+					// the very same point recovers, the failing image is a power-loss one, and the
+					// failure comes out of the B+tree code.
+					if process_ok && crate::recovery::index_torn_by_power_loss(&plan.opts, *cm == CrashModel::PowerLoss, &v) {
+						v.explained = Some("version_index_torn_by_power_loss".into());
+					}
 					if v.class == "not_prefix" && self.focus == Focus::C02 && acked_write_missing(&r.contents, model, lo, hi) {
 						v.class = "acked_write_missing".into();
 					}
@@ -403,7 +471,7 @@ pub fn judge(plan: &Plan, _tier: Tier) -> Judged {
 	if let Some(p2) = &plan.twin {
 		let sel = plan.params.get("gen2_point_sel").copied().unwrap_or(0) as usize;
 		let n1 = if ops.is_empty() { 0 } else { sel % (ops.len() + 1) };
-		let cm = if plan.params.get("gen2_model").copied().unwrap_or(0) == 1 { CrashModel::PowerLoss } else { CrashModel::Process };
+		let cm = if plan.params.get("gen2_model").copied().unwrap_or(0) == 1 && focus != Focus::C10 { CrashModel::PowerLoss } else { CrashModel::Process };
 		let (lo, hi) = window(&model, n1, cm);
 		if let Ok(dir) = build_image(&base, &ops, n1, cm, &tear, "g2db") {
 			let base2 = Image::from_dir(&dir);
@@ -418,7 +486,11 @@ pub fn judge(plan: &Plan, _tier: Tier) -> Judged {
 				Some(v) => {
 					// recovery-rule violations found while settling belong to the focus
 					if owns(focus, &v.class, lo) {
-						j.violation = Some(Violation { class: v.class.clone(), detail: format!("generation 2 (after {:?} at op {}): {}", cm, n1, v.detail), explained: v.explained.clone() });
+						let mut explained = v.explained.clone();
+						if explained.is_none() && crate::recovery::index_torn_by_power_loss(&plan.opts, cm == CrashModel::PowerLoss, v) {
+							explained = Some("version_index_torn_by_power_loss".into());
+						}
+						j.violation = Some(Violation { class: v.class.clone(), detail: format!("generation 2 (after {:?} at op {}): {}", cm, n1, v.detail), explained });
 					} else {
 						j.count(&format!("other_property.{}", v.class), 1);
 					}
